@@ -403,3 +403,306 @@ func sortedKeysS(m map[string]string) []string {
 	sortStrings(ks)
 	return ks
 }
+
+// R-MAPKEY-PARSE: JSON object names that are map keys are parsed according to
+// the key kind: unsigned kinds with strconv.ParseUint, signed kinds with
+// strconv.ParseInt, with the bit size of the kind. ParseInt for a uint32 key
+// rejects keys from 2^31 up, which Marshal writes.
+func (c *Ctx) ruleMapKeyParse(rule string) {
+	R, P := c.R, c.P
+	R.Rule(rule, "in protojson.decoder.unmarshalMapKey every integer key kind is parsed by the strconv function of its signedness (ParseInt for Int*/Sint*/Sfixed*, ParseUint for Uint*/Fixed*) with the bit size of the kind", 4)
+	fi := c.need(rule, "encoding/protojson.decoder.unmarshalMapKey")
+	if fi == nil {
+		return
+	}
+	info := fi.Info()
+	n := 0
+	walkAll(fi.Decl.Body, func(x ast.Node) bool {
+		cc, ok := x.(*ast.CaseClause)
+		if !ok || len(cc.List) == 0 {
+			return true
+		}
+		signed, unsigned, bits := false, false, int64(0)
+		var labels []string
+		for _, e := range cc.List {
+			name := exprStr(e)
+			name = name[strings.LastIndex(name, ".")+1:]
+			if !strings.HasSuffix(name, "Kind") {
+				return true
+			}
+			labels = append(labels, name)
+			k := strings.TrimSuffix(name, "Kind")
+			switch {
+			case strings.HasPrefix(k, "Uint") || strings.HasPrefix(k, "Fixed"):
+				unsigned = true
+			case strings.HasPrefix(k, "Int") || strings.HasPrefix(k, "Sint") || strings.HasPrefix(k, "Sfixed"):
+				signed = true
+			default:
+				return true
+			}
+			b := int64(64)
+			if strings.HasSuffix(k, "32") {
+				b = 32
+			}
+			if bits != 0 && bits != b {
+				bits = -1
+			} else if bits == 0 {
+				bits = b
+			}
+		}
+		if signed == unsigned {
+			return true
+		}
+		var call *ast.CallExpr
+		for _, st := range cc.Body {
+			walkAll(st, func(m ast.Node) bool {
+				if cl, ok := m.(*ast.CallExpr); ok && call == nil {
+					if k := calleeKey(info, cl); k == "strconv.ParseInt" || k == "strconv.ParseUint" {
+						call = cl
+					}
+				}
+				return true
+			})
+		}
+		n++
+		key := fi.Key + " case " + strings.Join(labels, ",")
+		if call == nil {
+			R.Unk(rule, key, P.Pos(cc), "no strconv.ParseInt/ParseUint call in the clause")
+			return true
+		}
+		fn := calleeKey(info, call)
+		wantFn := "strconv.ParseInt"
+		if unsigned {
+			wantFn = "strconv.ParseUint"
+		}
+		bs, okb := int64(0), false
+		if len(call.Args) == 3 {
+			bs, okb = constInt(info, call.Args[2])
+		}
+		switch {
+		case fn != wantFn:
+			R.Bad(rule, key, P.Pos(call), "the key is parsed with "+fn+" although the kind is "+map[bool]string{true: "unsigned", false: "signed"}[unsigned]+": keys outside the other type's range (for uint32: 2^31 and up, which Marshal writes) are rejected, or negative keys accepted and wrapped")
+		case !okb || bs != bits:
+			R.Bad(rule, key, P.Pos(call), "the key is parsed with bit size `"+exprStr(call.Args[len(call.Args)-1])+"`, not "+itoa(int(bits))+": out-of-range keys wrap, or in-range keys are rejected")
+		default:
+			R.OK(rule, key, P.Pos(call), fn+" with "+itoa(int(bits))+" bits")
+		}
+		return true
+	})
+	if n == 0 {
+		R.Unk(rule, fi.Key, P.Pos(fi.Decl), "no integer key clauses found")
+	}
+}
+
+// R-FLOAT-EXP-CLEANUP: strconv writes exponents with at least two digits
+// (e-07); the JSON writer drops the padding zero. The byte it drops has to be
+// established as '0' at that point, or the tens digit of a genuine two-digit
+// exponent (e-10 … e-99) is deleted and the number changes value.
+func (c *Ctx) ruleFloatExpCleanup(rule string) {
+	R, P := c.R, c.P
+	R.Rule(rule, "in json.appendFloat every statement that shortens the formatted number (re-slicing out to a smaller length, or appending onto a prefix of out) is dominated by the passing edge of `out[n-2] == '0'`, the byte being dropped", 1)
+	fi := c.need(rule, "internal/encoding/json.appendFloat")
+	if fi == nil {
+		return
+	}
+	info := fi.Info()
+	g := fi.CFG()
+	var outObj types.Object
+	if len(fi.Decl.Type.Params.List) > 0 {
+		outObj = info.Defs[fi.Decl.Type.Params.List[0].Names[0]]
+	}
+	n := 0
+	walkAll(fi.Decl.Body, func(x ast.Node) bool {
+		as, ok := x.(*ast.AssignStmt)
+		if !ok || len(as.Lhs) != 1 || len(as.Rhs) != 1 || objOf(info, as.Lhs[0]) != outObj {
+			return true
+		}
+		shortens := false
+		switch r := unparen(as.Rhs[0]).(type) {
+		case *ast.SliceExpr:
+			shortens = objOf(info, r.X) == outObj && r.High != nil
+		case *ast.CallExpr:
+			if calleeKey(info, r) == "builtin.append" && len(r.Args) >= 1 {
+				if se, ok := unparen(r.Args[0]).(*ast.SliceExpr); ok && objOf(info, se.X) == outObj && se.High != nil {
+					shortens = true
+				}
+			}
+		}
+		if !shortens {
+			return true
+		}
+		n++
+		ok = g.DominatedByCond(as, func(core ast.Expr, val bool) bool {
+			be, isBE := unparen(core).(*ast.BinaryExpr)
+			if !isBE || be.Op != token.EQL || !val {
+				return false
+			}
+			ie, isIdx := unparen(be.X).(*ast.IndexExpr)
+			if !isIdx || objOf(info, ie.X) != outObj {
+				return false
+			}
+			v, isC := constInt(info, be.Y)
+			return isC && v == '0' && strings.HasSuffix(strings.ReplaceAll(exprStr(ie.Index), " ", ""), "-2")
+		})
+		R.Check(ok, rule, fi.Key+" exponent clean-up#"+itoa(n), P.Pos(as), "drops a byte known to be '0'", "the formatted number is shortened by one exponent digit without the test that this digit is the padding '0': for exponents e-10 to e-99 the tens digit is deleted (2.5e-10 is written as 2.5e-0), valid JSON with another value")
+		return true
+	})
+	if n == 0 {
+		R.Unk(rule, fi.Key, P.Pos(fi.Decl), "exponent clean-up not found")
+	}
+}
+
+// R-CONFLICT-POLICY: a registration conflict is an error for every registry;
+// only the global registries may ignore it, and only if the conflict policy
+// says so. Each condition that consults ignoreConflict is evaluated over the
+// two atoms "r is the global registry" and "ignoreConflict(...)": a guard of
+// `return err` has to hold exactly unless both are true, a guard of `err = nil`
+// exactly when both are true.
+func (c *Ctx) ruleConflictPolicy(rule string) {
+	R, P := c.R, c.P
+	R.Rule(rule, "every condition in reflect/protoregistry that calls ignoreConflict, evaluated for the four valuations of (r == Global*, ignoreConflict(...)), suppresses the conflict error only when both hold", 5)
+	for _, fi := range P.FuncsIn("reflect/protoregistry") {
+		if fi.Decl.Body == nil {
+			continue
+		}
+		k := 0
+		walkAll(fi.Decl.Body, func(n ast.Node) bool {
+			is, ok := n.(*ast.IfStmt)
+			if !ok || !strings.Contains(exprStr(is.Cond), "ignoreConflict(") {
+				return true
+			}
+			k++
+			key := fi.Key + " conflict test#" + itoa(k)
+			undec := ""
+			var eval func(e ast.Expr, g, i bool) bool
+			eval = func(e ast.Expr, g, i bool) bool {
+				switch x := unparen(e).(type) {
+				case *ast.CallExpr:
+					if strings.HasPrefix(exprStr(x), "ignoreConflict(") {
+						return i
+					}
+				case *ast.UnaryExpr:
+					if x.Op == token.NOT {
+						return !eval(x.X, g, i)
+					}
+				case *ast.BinaryExpr:
+					switch x.Op {
+					case token.LAND:
+						return eval(x.X, g, i) && eval(x.Y, g, i)
+					case token.LOR:
+						return eval(x.X, g, i) || eval(x.Y, g, i)
+					case token.EQL, token.NEQ:
+						s := exprStr(x.X) + " " + exprStr(x.Y)
+						if strings.Contains(s, "Global") {
+							return g == (x.Op == token.EQL)
+						}
+					}
+				}
+				undec = exprStr(e)
+				return false
+			}
+			// what does the body do?
+			action := ""
+			if len(is.Body.List) == 1 {
+				switch b := is.Body.List[0].(type) {
+				case *ast.ReturnStmt:
+					action = "return"
+				case *ast.AssignStmt:
+					if len(b.Rhs) == 1 && exprStr(b.Rhs[0]) == "nil" {
+						action = "clear"
+					}
+				}
+			}
+			if action == "" {
+				R.Unk(rule, key, P.Pos(is), "body of the conflict test is neither `return err` nor `err = nil`")
+				return true
+			}
+			var wrong []string
+			for _, g := range []bool{false, true} {
+				for _, i := range []bool{false, true} {
+					got := eval(is.Cond, g, i)
+					want := g && i // suppress
+					if action == "return" {
+						want = !want
+					}
+					if got != want {
+						reg := "a local registry"
+						if g {
+							reg = "the global registry"
+						}
+						pol := "policy says report"
+						if i {
+							pol = "policy says ignore"
+						}
+						wrong = append(wrong, reg+", "+pol)
+					}
+				}
+			}
+			switch {
+			case undec != "":
+				R.Unk(rule, key, P.Pos(is), "cannot evaluate `"+undec+"`")
+			case len(wrong) > 0:
+				R.Bad(rule, key, P.Pos(is), "for {"+strings.Join(wrong, "; ")+"} the conflict is handled the wrong way round: a second registration of a name (or path, or extension number) is accepted silently where it must be reported, and the later entry replaces the earlier one")
+			default:
+				R.OK(rule, key, P.Pos(is), "suppressed only for the global registry under the ignore policy")
+			}
+			return true
+		})
+	}
+}
+
+// R-RANGE-STOP: a Range method stops at the first false result of the
+// callback. Inside nested loops that takes a return; break or continue only
+// leave the innermost loop and the iteration goes on.
+func (c *Ctx) ruleRangeStop(rule string, pkg string, floor int) {
+	R, P := c.R, c.P
+	R.Rule(rule, "in every Range* method of "+pkg+" the test `!f(x)` on the callback parameter is followed by return (not break/continue/goto)", floor)
+	for _, fi := range P.FuncsIn(pkg) {
+		if fi.Decl.Body == nil || !strings.HasPrefix(fi.Obj.Name(), "Range") {
+			continue
+		}
+		info := fi.Info()
+		cb := map[types.Object]bool{}
+		for _, f := range fi.Decl.Type.Params.List {
+			for _, nm := range f.Names {
+				if _, ok := info.Defs[nm].Type().Underlying().(*types.Signature); ok {
+					cb[info.Defs[nm]] = true
+				}
+			}
+		}
+		k := 0
+		walkAll(fi.Decl.Body, func(n ast.Node) bool {
+			is, ok := n.(*ast.IfStmt)
+			if !ok {
+				return true
+			}
+			ue, ok := unparen(is.Cond).(*ast.UnaryExpr)
+			if !ok || ue.Op != token.NOT {
+				return true
+			}
+			call, ok := unparen(ue.X).(*ast.CallExpr)
+			if !ok {
+				return true
+			}
+			id, ok := call.Fun.(*ast.Ident)
+			if !ok || !cb[info.Uses[id]] {
+				return true
+			}
+			k++
+			last := is.Body.List[len(is.Body.List)-1]
+			_, isRet := last.(*ast.ReturnStmt)
+			R.Check(isRet, rule, fi.Key+" stop#"+itoa(k), P.Pos(is), "returns", "after the callback returned false the method does `"+exprStr2(last)+"` instead of returning: only the innermost loop is left and the callback keeps being called for the remaining elements")
+			return true
+		})
+	}
+}
+
+func exprStr2(s ast.Stmt) string {
+	switch x := s.(type) {
+	case *ast.BranchStmt:
+		return x.Tok.String()
+	case *ast.ExprStmt:
+		return exprStr(x.X)
+	}
+	return "…"
+}
